@@ -343,13 +343,14 @@ theorem offOf_lt_of_below {ids : List Bytes} {fs : Cp} {X : Int} (h : OffBelow i
     offOf ids fs < X :=
   foldl_offStep_lt ids X fs (-1) h (by omega)
 
-private def BInv (d : Nat) (X : Int) (seen : Bool) (acc : Option (CpInfo × Int)) : Prop :=
+private def BInv (F : CpInfo → Prop) (d : Nat) (X : Int) (seen : Bool) (acc : Option (CpInfo × Int)) : Prop :=
   ∃ cpi rec, acc = some (cpi, rec) ∧
-    (if seen then cpi.offset = X ∧ cpi.runId ≠ qmark ∧ rec = (d : Int) else cpi.offset < X)
+    (if seen then cpi.offset = X ∧ cpi.runId ≠ qmark ∧ rec = (d : Int) ∧ F cpi else cpi.offset < X)
 
 private theorem bestStep_inv {ids : List Bytes} {t : Target} {n : Bytes} {d : Nat} {X : Int}
     (h : Holds ids t n d X) (seen : Bool) (acc : Option (CpInfo × Int)) (db : Nat)
-    (hi : BInv d X seen acc) : BInv d X (seen || decide (db = d)) (bestStep ids t n acc db) := by
+    (hi : BInv (fun c => fetch ids (t.cps d n) = some c) d X seen acc) :
+    BInv (fun c => fetch ids (t.cps d n) = some c) d X (seen || decide (db = d)) (bestStep ids t n acc db) := by
   obtain ⟨cpi, rec, rfl, hc⟩ := hi
   obtain ⟨tc, htc, hoff, hrid⟩ := fetch_spec ids (t.cps db n) (h.parses db)
   unfold bestStep
@@ -360,7 +361,7 @@ private theorem bestStep_inv {ids : List Bytes} {t : Target} {n : Bytes} {d : Na
     have hr : tc.runId ≠ qmark := by rw [hrid]; exact h.rid
     simp only [decide_true, Bool.or_true]
     split
-    · exact ⟨tc, _, rfl, by simp [ho, hr]⟩
+    · exact ⟨tc, _, rfl, by simp [ho, hr, htc]⟩
     · rename_i hcond
       cases seen with
       | true => exact ⟨cpi, rec, rfl, by simpa using hc⟩
@@ -372,7 +373,7 @@ private theorem bestStep_inv {ids : List Bytes} {t : Target} {n : Bytes} {d : Na
     simp only [hdb, decide_false, Bool.or_false]
     cases seen with
     | true =>
-      have hc' : cpi.offset = X ∧ cpi.runId ≠ qmark ∧ rec = (d : Int) := by simpa using hc
+      have hc' : cpi.offset = X ∧ cpi.runId ≠ qmark ∧ rec = (d : Int) ∧ fetch ids (t.cps d n) = some cpi := by simpa using hc
       have : ¬ (tc.offset > cpi.offset ∨ (tc.offset = cpi.offset ∧ tc.mtime > cpi.mtime)) := by
         rw [hc'.1]; omega
       simp only [this, if_false]
@@ -385,8 +386,8 @@ private theorem bestStep_inv {ids : List Bytes} {t : Target} {n : Bytes} {d : Na
 
 private theorem bestFold_inv {ids : List Bytes} {t : Target} {n : Bytes} {d : Nat} {X : Int}
     (h : Holds ids t n d X) (order : List Nat) :
-    ∀ (seen : Bool) (acc : Option (CpInfo × Int)), BInv d X seen acc →
-      BInv d X (seen || decide (d ∈ order)) (order.foldl (bestStep ids t n) acc) := by
+    ∀ (seen : Bool) (acc : Option (CpInfo × Int)), BInv (fun c => fetch ids (t.cps d n) = some c) d X seen acc →
+      BInv (fun c => fetch ids (t.cps d n) = some c) d X (seen || decide (d ∈ order)) (order.foldl (bestStep ids t n) acc) := by
   induction order with
   | nil => intro seen acc hi; simpa using hi
   | cons db rest ih =>
@@ -405,21 +406,22 @@ private theorem bestFold_inv {ids : List Bytes} {t : Target} {n : Bytes} {d : Na
 
 theorem getCheckpoint_of_holds (ver : Bytes) {ids : List Bytes} {t : Target} {n : Bytes} {d : Nat}
     {X : Int} (h : Holds ids t n d X) (order : List Nat) (hd : d ∈ order) :
-    ∃ c, getCheckpoint ver t n ids order = some (c, (d : Int)) ∧ c.offset = X ∧ c.runId ≠ qmark := by
-  have hinit : BInv d X false (some (({ version := ver } : CpInfo), (0 : Int))) :=
+    ∃ c, getCheckpoint ver t n ids order = some (c, (d : Int)) ∧ c.offset = X ∧ c.runId ≠ qmark ∧
+      fetch ids (t.cps d n) = some c := by
+  have hinit : BInv (fun c => fetch ids (t.cps d n) = some c) d X false (some (({ version := ver } : CpInfo), (0 : Int))) :=
     ⟨_, _, rfl, by simp; have := h.nonneg; omega⟩
   obtain ⟨cpi, rec, hacc, hc⟩ := bestFold_inv h order false _ hinit
   simp only [hd, decide_true, Bool.or_true, if_true] at hc
   unfold getCheckpoint
   rw [hacc]
   simp only [hc.2.1, if_false]
-  exact ⟨cpi, by rw [hc.2.2], hc.1, hc.2.1⟩
+  exact ⟨cpi, by rw [hc.2.2.1], hc.1, hc.2.1, hc.2.2.2⟩
 
 theorem startPoint_of_holds (ver : Bytes) {ids : List Bytes} {t : Target} {n r : Bytes} {d : Nat}
     {X : Int} (hn : getHash t.hash ids = some (n, r)) (hn0 : n ≠ [])
     (h : Holds ids t n d X) (order : List Nat) (hd : d ∈ order) :
     startPoint ver ids order t = some (some (X, d)) := by
-  obtain ⟨c, hc, hX, _⟩ := getCheckpoint_of_holds ver h order hd
+  obtain ⟨c, hc, hX, _, _⟩ := getCheckpoint_of_holds ver h order hd
   unfold startPoint
   simp only [hn, hn0, if_false, hc]
   have : ¬ ((d : Int) < 0) := by omega
